@@ -96,6 +96,54 @@ static void sweep(uint64_t B, vh::Rng & rng, unsigned nrandom)
     }
 }
 
+// Boxes far too large to walk to the end (an extent of 2^31, 2^32 + 3, 2^40 in some position): the first K callbacks are
+// observed, then the callback stops the walk by throwing.  Fewer than K callbacks (a box silently skipped or cut short)
+// or a tuple outside the box is a violation; the order of visits is not asserted.
+struct StopWalk {
+};
+template <typename T, std::size_t N>
+static void huge(const std::array<uint64_t, N> & ext, unsigned K)
+{
+    using tuple_t = covfie::array::array<T, N>;
+    std::string name = std::string("nd_map<") + vh::tn<T>() + "," + std::to_string(N) + ">:huge";
+    tuple_t s;
+    unsigned __int128 prod = 1;
+    for (std::size_t k = 0; k < N; ++k) {
+        s[k] = (T)ext[k];
+        prod *= ext[k];
+    }
+    vh::set_case("%s extents=%s (first %u callbacks)", name.c_str(), vh::jarr(ext, N).c_str(), K);
+    std::vector<std::array<uint64_t, N>> seen;
+    uint64_t outside = 0;
+    bool stopped = false;
+    try {
+        covfie::utility::nd_map<tuple_t>(
+            [&](tuple_t t) {
+                std::array<uint64_t, N> a;
+                for (std::size_t k = 0; k < N; ++k) {
+                    a[k] = (uint64_t)t[k];
+                    if (!(a[k] < ext[k])) ++outside;
+                }
+                seen.push_back(a);
+                if (seen.size() >= K) throw StopWalk();
+            },
+            s);
+    } catch (const StopWalk &) {
+        stopped = true;
+    }
+    vh::ev();
+    vh::stat("callbacks", seen.size());
+    vh::stat("huge_boxes");
+    vh::nontrivial(vh::fnv(name, vh::fnv(ext.data(), sizeof(uint64_t) * N)));
+    const std::string d = "extents=" + vh::jarr(ext, N);
+    const uint64_t want = prod < K ? (uint64_t)prod : K;
+    if (seen.size() != want || (prod >= K) != stopped) vh::viol(name + ":count", d + " callbacks=" + std::to_string(seen.size()) + " before the walk ended, expected " + std::to_string(want));
+    if (outside) vh::viol(name + ":outside", d + " tuples_outside=" + std::to_string(outside));
+    std::sort(seen.begin(), seen.end());
+    if (std::adjacent_find(seen.begin(), seen.end()) != seen.end()) vh::viol(name + ":duplicate", d);
+    vh::sample(name, d + " first " + std::to_string(seen.size()) + " callbacks inside the box and distinct", 1);
+}
+
 // boxes whose cell count is a multiple of 2^(bits of the tuple's scalar type): a count kept in that type wraps to 0
 template <typename T>
 static void wrapping_counts()
@@ -116,6 +164,28 @@ int main(int argc, char ** argv)
     wrapping_counts<unsigned char>();
     wrapping_counts<unsigned short>();
     wrapping_counts<short>();
+    {
+        const uint64_t P31 = 1ull << 31, P32 = 1ull << 32, P40 = 1ull << 40;
+        const unsigned K = th ? 20000 : 3000;
+        huge<std::size_t, 1>({P32 + 3}, K);
+        huge<std::size_t, 2>({2, P31}, K);
+        huge<std::size_t, 2>({2, 3000000000ull}, K);
+        huge<std::size_t, 2>({2, P32 + 3}, K);
+        huge<std::size_t, 2>({P31 + 1, 3}, K);
+        huge<std::size_t, 2>({P40, P40}, K);
+        huge<std::size_t, 3>({2, 1, P31}, K);
+        huge<std::size_t, 3>({1, P32 + 5, 2}, K);
+        huge<std::size_t, 3>({3, 2, P40 + 1}, K);
+        huge<std::size_t, 4>({1, 2, P32, 1}, K);
+        huge<std::size_t, 5>({1, 1, 2, 1, P31 + 7}, K);
+        huge<long, 2>({2, P31 + 9}, K);
+        huge<long, 3>({1, 3, P32 + 1}, K);
+        huge<unsigned, 2>({3, P31 + 5}, K);
+        huge<unsigned, 3>({2, 2, 4000000000ull}, K);
+        huge<int, 2>({2, P31 - 1}, K);
+        huge<std::size_t, 2>({0, P40}, K);   // an empty box with a huge trailing extent: no callback at all
+        huge<std::size_t, 3>({5, 0, P40}, K);
+    }
     vh::Rng rng(vh::st().seed * 7919 + 19);
     uint64_t B = th ? 6 : 4;
     unsigned nr = th ? 400 : 60;
